@@ -27,8 +27,10 @@ RULE = (
     "case = (nesting depth 1-3, catch depth, raise class or normal exit, extractor registration = "
     "assignment of {none, returns fields, raises} to each of {A, B, C, Exception}, style in {with, "
     "context()+finish, finish without context}, extra finish calls in {0, 1, 2 (one with an exception "
-    "argument)}, start fields on/off, success fields on/off); full product for depth 1, registrations "
-    "restricted to 9 representatives for depth 2-3; non-trivial = case that raises"
+    "argument)}, start fields on/off, success fields on/off, optionally while an unrelated exception is being "
+    "handled (inside except / finally)); full product for depth 1, registrations restricted to 9 "
+    "representatives for depth 2-3; plus all histories of <= 3 events over {fail A/B/C, register "
+    "extractor for A/B/C (returning/raising), succeed} with registrations arriving after failures; non-trivial = case that raises"
 )
 ASSUMPTIONS = [
     "exception classes and extractor behaviours from a fixed alphabet",
@@ -108,10 +110,30 @@ def units(tier):
         out.append([1, ri])
         out.append([2, ri])
         out.append([3, ri])
+    out.append(["history"])
     return out
 
 
+HIST_CLASSES = [A, B, C]
+
+
+def history_events():
+    ev = [["fail", i] for i in range(3)]
+    ev += [["reg", i, m] for i in range(3) for m in (1, 2)]
+    ev += [["ok"]]
+    return ev
+
+
 def cases(unit, tier):
+    if unit == ["history"]:
+        import itertools as it
+
+        evs = history_events()
+        for n in (1, 2, 3) if tier == "quick" else (1, 2, 3, 4):
+            for seq in it.product(range(len(evs)), repeat=n):
+                if any(evs[i][0] == "fail" for i in seq):
+                    yield ["history", [evs[i] for i in seq]]
+        return
     depth, ri = unit
     regs = ALL_REGS if depth == 1 else SMALL_REGS
     if ri == 0:
@@ -125,6 +147,10 @@ def cases(unit, tier):
                             if depth > 1 and (xf == 2 or (sf and ef)) and reg not in SMALL_REGS[:3]:
                                 continue
                             yield [depth, ri, list(reg), style, xf, sf, ef, up]
+                            # the same while another exception is being handled (except / finally)
+                            if reg in SMALL_REGS[:2] and xf == 0 and sf == 0:
+                                yield [depth, ri, list(reg), style, xf, sf, ef, up, 1]
+                                yield [depth, ri, list(reg), style, xf, sf, ef, up, 2]
 
 
 def expected_extractor(exc, reg):
@@ -143,8 +169,71 @@ def expected_extractor(exc, reg):
     return {}, False
 
 
+class Ambient(Exception):
+    """An unrelated exception that is being handled while the actions under test run."""
+
+
+def run_history(events):
+    """Failures interleaved with (re-)registrations of extractors: each failed action must carry the
+    fields of the extractor registered for the nearest class *at that time*."""
+    viol = []
+
+    def go():
+        seen = world.capture()
+        table = {}
+        expected = []
+        for ev in events:
+            if ev[0] == "reg":
+                cls = HIST_CLASSES[ev[1]]
+                table[cls] = ev[2]
+                register_exception_extractor(cls, make_extractor(cls, ev[2]))
+            elif ev[0] == "ok":
+                with start_action(action_type="h"):
+                    pass
+                expected.append(("succeeded", None, False))
+            else:
+                cls = HIST_CLASSES[ev[1]]
+                e = cls("x")
+                try:
+                    with start_action(action_type="h"):
+                        raise e
+                except cls as got:
+                    if got is not e:
+                        viol.append(("exception-identity", {"events": events}))
+                fields, raises = {}, False
+                for k in cls.__mro__:
+                    if k in table:
+                        if table[k] == 1:
+                            fields = {"from_" + k.__name__: k.__name__}
+                        else:
+                            raises = True
+                        break
+                expected.append(("failed", dict(fields, exception="%s.%s" % (cls.__module__, cls.__name__), reason="x"), raises))
+        return list(seen), expected
+
+    msgs, expected = world.run_isolated(go)
+    ends = [m for m in msgs if m.get("action_status") in ("succeeded", "failed")]
+    meta = ("action_type", "action_status", "task_uuid", "task_level", "timestamp")
+    if len(ends) != len(expected):
+        viol.append(("end-count", {"events": events, "got": len(ends)}))
+    else:
+        for m, (st, fields, _) in zip(ends, expected):
+            got = {k: v for k, v in m.items() if k not in meta}
+            if m["action_status"] != st or (fields is not None and got != fields):
+                viol.append(("failed-end-fields:after-later-registration", {"events": events, "got": got, "want": fields}))
+                break
+    ntb = sum(1 for m in msgs if m.get("message_type") == "eliot:traceback")
+    if ntb != sum(1 for e in expected if e[2]):
+        viol.append(("traceback-count-for-raising-extractor", {"events": events, "got": ntb}))
+    return Result(outcome=[[m.get("action_status"), sorted(k for k in m if k.startswith("from_"))] for m in ends],
+                  nontrivial=len(events) > 1, violations=viol[:3])
+
+
 def run_case(case):
-    depth, ri, reg, style, xf, sf, ef, up = case
+    if case[0] == "history":
+        return run_history(case[1])
+    ambient = case[8] if len(case) > 8 else 0
+    depth, ri, reg, style, xf, sf, ef, up = case[:8]
     viol = []
 
     def bad(sig, **d):
@@ -216,13 +305,30 @@ def run_case(case):
             finally:
                 pass
 
-        try:
-            guarded(0)
-        except BaseException as e:
-            if e is not raised[0]:
-                bad("exception-identity", level="top", got=repr(e))
-            elif up < depth - 1:
-                bad("harness-catch-depth", up=up)
+        def run_top():
+            try:
+                guarded(0)
+            except BaseException as e:
+                if e is not raised[0]:
+                    bad("exception-identity", level="top", got=repr(e))
+                elif up < depth - 1:
+                    bad("harness-catch-depth", up=up)
+
+        if ambient == 1:
+            try:
+                raise Ambient("ambient")
+            except Ambient:
+                run_top()
+        elif ambient == 2:
+            try:
+                try:
+                    raise Ambient("ambient")
+                finally:
+                    run_top()
+            except Ambient:
+                pass
+        else:
+            run_top()
         if current_action() is not before:
             bad("context-not-restored", got=repr(current_action()))
         n_before = len(seen)
